@@ -1,16 +1,23 @@
 // Driver for C11 (instance isolation and data-race freedom).
 //
+//	mode=locks
+//	    nothing runs: the judged observation is the lock-facts table regenerated from this tree (gen area `locks`).
 //	mode=alias kind=<pool kind> [pre=1] [sc=<clients>]
 //	    one goroutine: build the pool through the registered plugin factories, create two guns the way instancePool
 //	    does, acquire one ammo for each, walk everything reachable from (gun1, ammo1) and from (gun2, ammo2) and print
-//	    the labels of the allocation units reachable from BOTH; snapshot those units, fire ONE real Shoot (gun 1) at an
+//	    the labels of the allocation units reachable from BOTH; snapshot those units, fire ONE real Shoot per gun at an
 //	    in-process target and print the labels of the shared units whose content changed.
 //	mode=guns kind=<pool kind> n=<instances>
-//	    the real engine with a probing gun factory: guns created, distinct gun objects, maximal number of overlapping
-//	    Shoot calls on one gun object, maximal number of goroutines calling one gun.
-//	mode=race kind=<pool kind> n=<instances> shots=<K>
+//	    the real engine with a probing gun factory (child process): guns created, distinct gun objects, maximal number
+//	    of overlapping Shoot calls on one gun object, maximal number of goroutines calling one gun.
+//	mode=race kind=<pool kind> n=<instances> shots=<K> [pre=1] [sc=<clients>] [agg=phout]
 //	    the real engine in a child process (GORACE log to a file, never halting); observation = race report sites
-//	    (only the driver built with -race can see any) and fatal runtime errors.
+//	    (only a -race build can see any) and fatal runtime errors / panics.
+//	mode=hammer obj=<shared object> n=<goroutines> calls=<K>
+//	    n goroutines call the instance-facing API of ONE real shared object (child process, race detector).
+//
+// Child processes are the -race build of this driver whenever it exists next to the plain build (`check` builds
+// both), so replays reproduce race reports.
 //
 // pool kinds: uri uripost raw httpjson httpscen grpcscen grpcjson
 package main
@@ -35,9 +42,10 @@ func main() {
 		Class:   class,
 		Workers: workers(),
 		Timeout: 150 * time.Second,
-		Rule: "every built-in pool kind (http uri/uripost/raw/json with and without preload, http/scenario, grpc/scenario, " +
-			"grpc/json with and without shared client): aliasing graph of two instances + write set of one real Shoot; gun " +
-			"identity/overlap probe through the real engine with 1..8 instances; race-detector sweep with 8 instances; " +
-			"non-trivial = shots reached the in-process target",
+		Rule: "the regenerated lock-facts table; every built-in pool kind (http uri/uripost/raw/json with and without preload and " +
+			"shared client, http/scenario, grpc/scenario, grpc/json with and without shared client): aliasing graph of two " +
+			"instances + write set of one real Shoot each; gun identity/overlap probe through the real engine with 1..12 " +
+			"instances; race-detector sweep of whole pools with 2..16 instances (discard and phout aggregators) and of each " +
+			"shared object hammered by 2..16 goroutines; non-trivial = shots reached the in-process target / all calls done",
 	})
 }
